@@ -238,3 +238,92 @@ package rtsp
 //@   ensures !old(legalRFC(s.status, req.Method)) ==> s.transport.Type == old(s.transport.Type)
 //@   ensures !old(legalRFC(s.status, req.Method)) ==> s.consumer == old(s.consumer)
 //@   ensures !old(legalRFC(s.status, req.Method)) ==> s.stream == old(s.stream)
+
+// ---- C20: on-demand pull: any camera behaviour at any step ends with everything released -----------------------------
+//@ import "net/url"
+//@ import gosdp "github.com/pixelbender/go-sdp/sdp"
+//@ import "sync/atomic"
+//@ extern func (l *xlog.Logger) Info(msg string, fields ...xlog.Field) ()
+//@   modifies
+//@ extern func (c *buffered.Conn) Close() (err error)
+//@   requires c != nil
+//@   modifies ghostBool(c, "closed")
+//@   ensures ghostBool(c, "closed")
+//@ extern func atomic.StoreInt64(addr *int64, val int64) ()
+//@   modifies *addr
+//@   ensures *addr == val
+// the five steps of opening a pull: each may fail in any way (camera refuses, garbage, timeout, reset): assumed frames only
+//@ func (c *PullClient) connect() (err error)
+//@   trusted
+//@   requires c != nil
+//@   modifies c.conn, c.closed
+//@   ensures err == nil ==> c.conn != nil && !c.closed
+//@ func (c *PullClient) requestHandshake() (err error)
+//@   trusted
+//@   requires c != nil
+//@   modifies c.realm, c.nonce, c.rsession, c.seq, misc(c)
+//@ func (c *PullClient) requestPlay() (err error)
+//@   trusted
+//@   requires c != nil
+//@   modifies c.stream, c.realm, c.nonce, c.rsession, c.seq, misc(c)
+//@ func (c *PullClient) requestSetup() (err error)
+//@   trusted
+//@   requires c != nil
+//@   modifies c.realm, c.nonce, c.rsession, c.seq, misc(c)
+
+// disconnect: idempotent; closes the connection (if any) and resets the protocol state
+//@ func (c *PullClient) disconnect() ()
+//@   requires c != nil && c.logger != nil
+//@   modifies c.closed, ghostBool(c.conn, "closed"), c.rsession, c.seq, c.realm, c.sdp, c.aControl, c.vControl, c.aCodec, c.vCodec
+//@   ensures c.closed
+//@   ensures !old(c.closed) && c.conn != nil ==> ghostBool(c.conn, "closed")
+//@   ensures old(c.closed) ==> ghostBool(c.conn, "closed") == old(ghostBool(c.conn, "closed"))
+
+// Open: whatever the camera does at whichever step, a failed Open leaves the client closed with no connection and no
+// stream (the connection it opened is closed); success means the five steps ran in order
+//@ func (c *PullClient) Open() (err error)
+//@   requires c != nil && c.logger != nil
+//@   modifies all()
+//@   ensures !old(c.closed) ==> err == nil && c.conn == old(c.conn) && c.stream == old(c.stream) && !c.closed
+//@   ensures old(c.closed) && err != nil ==> c.closed && c.conn == nil && c.stream == nil
+
+// assumed: go-sdp returns a session whose media entries (and first formats) are non-nil; nothing is assumed about
+// how many formats a media line has (a hostile camera may send none)
+//@ extern func gosdp.ParseString(s string) (sess *gosdp.Session, err error)
+//@   modifies
+//@   fresh sess
+//@   ensures err == nil ==> sess != nil && forall(i, 0, len(sess.Media), sess.Media[i] != nil && (len(sess.Media[i].Format) > 0 ==> sess.Media[i].Format[0] != nil))
+//@ extern func (a gosdp.Attributes) Get(name string) (v string)
+//@   modifies
+//@ func (c *PullClient) newRequest(method string, u *url.URL) (r *Request)
+//@   trusted
+//@   requires c != nil
+//@   modifies c.seq
+//@   fresh r
+//@   ensures r != nil && r.Header != nil
+//@ func (c *PullClient) requestWithResponse(r *Request) (resp *Response, err error)
+//@   trusted
+//@   requires c != nil && r != nil
+//@   modifies c.realm, c.nonce, c.rsession, c.seq, misc(c)
+//@   fresh resp
+//@   ensures err == nil ==> resp != nil
+
+// DESCRIBE: no answer of the camera (SDP without media, media lines without formats, ...) makes this step panic
+//@ func (c *PullClient) requestSDP() (err error)
+//@   requires c != nil
+//@   modifies c.rawSdp, c.sdp, c.vControl, c.vCodec, c.aControl, c.aCodec, c.realm, c.nonce, c.rsession, c.seq, ghostAll("misc")
+//@   local rangeindex int
+//@   loop 0: modifies c.vControl, c.vCodec, c.aControl, c.aCodec
+//@   loop 0: invariant -1 <= rangeindex && c.sdp != nil && rangeindex <= len(c.sdp.Media) && c == old(c)
+//@   loop 0: invariant forall(i, 0, len(c.sdp.Media), c.sdp.Media[i] != nil && (len(c.sdp.Media[i].Format) > 0 ==> c.sdp.Media[i].Format[0] != nil))
+//@   ensures true
+
+// SETUP url: relative control attributes are joined to the base URL for every base path (also an empty one)
+//@ extern func url.Parse(rawurl string) (u *url.URL, err error)
+//@   modifies
+//@ extern func strings.EqualFold(s string, t string) (b bool)
+//@   modifies
+//@ func (c *PullClient) getSetupURL(ctrl string) (setupURL *url.URL, err error)
+//@   requires c != nil && c.url != nil
+//@   modifies
+//@   ensures true
